@@ -185,7 +185,7 @@ def make_case(i, rng, tier):
         return None
     route = rng.choice(["class", "annotate", "field", "apply_dc"])
     return {"origin": origin, "cons": cons, "route": route, "extra": extra, "rng": rng,
-            "minc": rng.choice([None, None, 1, 2]), "maxc": rng.choice([None, None, 2, 3])}
+            "minc": rng.choice([None, None, 1, 2]), "maxc": rng.choice([None, None, 2, 3]), "collect": rng.random() < 0.25}
 
 
 def _build(case):
@@ -213,18 +213,21 @@ def _build(case):
             cd["max_contains"] = case["maxc"]
         contains_pred = CONTAINS_TYPES[0][1]
     route = case["route"]
+    # the declaration's own options may ask for error collection: the verdict on a well-typed value is the same
+    own = {"__options__": utype.Options(collect_errors=True)} if case.get("collect") else {}
+    ann_kw = {"options": own["__options__"]} if own else {}
     if origin is None:
-        T = LogicalType("C", (Rule,), dict(cd)) if route == "class" else Rule.annotate(constraints=dict(cd))
+        T = LogicalType("C", (Rule,), dict(cd, **own)) if route == "class" else Rule.annotate(constraints=dict(cd), **ann_kw)
         call = lambda v: T(v)
     elif route == "class" and origin is not bool:
-        T = LogicalType("C", (origin, Rule), dict(cd))
+        T = LogicalType("C", (origin, Rule), dict(cd, **own))
         call = lambda v: T(v)
     elif route == "annotate" or route == "class":
-        T = Rule.annotate(origin, constraints=dict(cd))
+        T = Rule.annotate(origin, constraints=dict(cd), **ann_kw)
         call = lambda v: T(v)
     else:
         base = Schema if route == "field" else utype.DataClass
-        S = type(base)("S", (base,), {"__annotations__": {"f": origin}, "f": Field(**cd), "__qualname__": "S", "__module__": "vmon_generated"})
+        S = type(base)("S", (base,), dict({"__annotations__": {"f": origin}, "f": Field(**cd), "__qualname__": "S", "__module__": "vmon_generated"}, **own))
         T = S.__parser__.fields["f"].type
         if route == "field":
             call = lambda v: dict.__getitem__(S(f=v), "f")
@@ -293,7 +296,7 @@ def run_case(case, ctx):
             out = run(lambda: call(v))
             ctx.count("calls")
             vc = TS.value_class(v)
-            sig = (case["origin"], names, case["route"], vc, ref)
+            sig = (case["origin"], names, case["route"], vc, ref, bool(case.get("collect")))
             wit = {"origin": case["origin"], "constraints": {k: short(b, 60) for k, b in cd.items()}, "route": case["route"],
                    "value": short(v, 100), "reference_says": "all hold" if ref else "violated", "outcome": repr(out)}
             if out.kind == "escape":
